@@ -54,6 +54,23 @@ impl Oracle for C17 {
                     if same_content_other_epoch {
                         kf = Some("KF-C17-1".to_string());
                     }
+                    // KF-C17-2 (same root cause as KF-C02-2 / KF-C20-1): after it stored the
+                    // announcing message the client accepted another invitation for the same
+                    // group; its MLS state and the exporter secret of that epoch number were
+                    // replaced by those of the other branch
+                    let stored_at = w.history.iter().position(|r| {
+                        r.step.node == node && (r.step.id == l.origin.0 || (matches!(&r.step.op, Op::Deliver { ev } if *ev == l.origin) && r.outcome.starts_with("App(")))
+                    });
+                    let accepts: Vec<usize> = w
+                        .history
+                        .iter()
+                        .enumerate()
+                        .filter(|(_, r)| r.step.node == node && r.class == "ok" && matches!(&r.step.op, Op::AcceptWelcome { w: wr } if w.w_index.get(wr).map(|i| w.welcomes[*i].g == l.g).unwrap_or(false)))
+                        .map(|(i, _)| i)
+                        .collect();
+                    if kf.is_none() && accepts.len() >= 2 && stored_at.map(|s| accepts.iter().any(|a| *a > s)).unwrap_or(false) {
+                        kf = Some("KF-C17-2".to_string());
+                    }
                     viols.push(("member-of-the-epoch-cannot-decrypt", format!("n{node} (member of the sending epoch {}, now at epoch {cur_epoch}, announcing message stored and valid): {}", l.epoch, rec.outcome)));
                 }
             }
